@@ -90,3 +90,36 @@ Example C01_example_run :
   fst (nn_descent 1000 ex_dm true 4 2 [11; 22; 33] 2 3 0 None (Some [[0; 1; 2; 3]]) true 2)
   = Some ([[1; 2]; [0; 2]; [1; 0]; [2; 1]], [[1; 4]; [1; 1]; [1; 4]; [64; 81]]).
 Proof. vm_compute. reflexivity. Qed.
+
+(* ---- the whole of nn_descent (added after the kernel theorems) ---- *)
+From PV Require Import C01Loop.
+
+(* the candidate arrays new_build_candidates hands to the local join are always in range *)
+Theorem C01_candidates_in_range :
+  forall (dm : nat -> nat -> Z) (inf : Z) (n k maxc : nat),
+    (0 < k)%nat -> (0 < maxc)%nat ->
+    forall g rng T, GWF dm inf n k g ->
+      let '(g1, newc, oldc) := new_build_candidates inf g maxc rng T in
+      Forall (Forall (id_ok n)) newc /\ Forall (Forall (id_ok n)) oldc.
+Proof. intros dm inf n k maxc Hk Hm. exact (new_build_candidates_in_range dm inf n k maxc Hk Hm). Qed.
+Print Assumptions C01_candidates_in_range.
+
+(* nn_descent returns the row-wise sort of a heap graph that satisfies the invariant: for every
+   generator state, every iteration bound and stopping threshold, every thread count, both
+   memory modes (and both variants of the high-memory branch), with in-range tree leaves,
+   without trees, or started from a caller-supplied well-formed heap *)
+Theorem C01_nn_descent_invariant :
+  forall (dm : nat -> nat -> Z) (inf : Z) (n k maxc : nat),
+    (0 < k)%nat -> (0 < maxc)%nat -> (forall a b, dm a b = dm b a) ->
+    forall b rng iters thr_c init leaves low T,
+      (match init with Some g => GWF dm inf n k g | None => True end) ->
+      (match leaves with Some lv => Forall (Forall (id_ok n)) lv | None => True end) ->
+      GWF dm inf n k (nn_descent_heap dm inf n k maxc b rng iters thr_c init leaves low T) /\
+      fst (nn_descent inf dm b n k rng maxc iters thr_c init leaves low T) =
+      deheap_graph (nn_descent_heap dm inf n k maxc b rng iters thr_c init leaves low T).
+Proof.
+  intros dm inf n k maxc Hk Hm Hs b rng iters thr_c init leaves low T Hi Hl. split.
+  - apply nn_descent_GWF; auto.
+  - apply nn_descent_is_sorted_heap.
+Qed.
+Print Assumptions C01_nn_descent_invariant.
